@@ -301,6 +301,15 @@ fn run_skins(ctx: &mut Ctx) {
         ctx.out.stat(if old { "c13.skin.old" } else { "c13.skin.new" });
         let wr = |f: &SkinFile| -> Result<Vec<u8>, String> { let f = f.clone(); match std::panic::catch_unwind(move || { let mut c = Cursor::new(Vec::new()); f.write(&mut c).map(|_| c.into_inner()) }) { Ok(Ok(b)) => Ok(b), Ok(Err(e)) => Err(e.to_string()), Err(_) => Err("writer panics".into()) } };
         let bytes = match wr(&file) { Ok(b) => b, Err(e) => { ctx.out.oracle(false, "skin-write-fails", &format!("{e} :: {desc}")); continue; } };
+        // Model.C13Skin: the five (count, offset) pairs in the written header and the file size against the section layout
+        {
+            let base = if old { 4 } else { 20 };
+            let hdr = if old { 48 } else if let SkinFile::New(sk) = &file { if sk.header.center_position.is_some() { 76 } else { 60 } } else { 60 };
+            let rd = |o: usize| if o + 4 <= bytes.len() { u32::from_le_bytes([bytes[o], bytes[o + 1], bytes[o + 2], bytes[o + 3]]) } else { 0xDEAD_BEEF };
+            let pairs: Vec<String> = (0..5).map(|k| format!("{},{}", rd(base + 8 * k), rd(base + 8 * k + 4))).collect();
+            ctx.out.case(&format!("c13skin {hdr} {} {} {} {} {}", file.indices().len(), file.triangles().len(), file.bone_indices().len(), file.submeshes().len(), file.batches().len()), &format!("{} size={}", pairs.join(" "), bytes.len()));
+            ctx.out.stat("c13.skin.layout");
+        }
         let b2 = bytes.clone();
         let parsed = match std::panic::catch_unwind(move || SkinFile::parse(&mut Cursor::new(b2))) { Ok(Ok(p)) => p, Ok(Err(e)) => { ctx.out.oracle(false, if tiny_old { "tiny-old-skin-read-as-new-layout" } else { "own-skin-does-not-parse" }, &format!("{e} :: {desc}")); continue; } Err(_) => { ctx.out.oracle(false, "own-skin-does-not-parse", &format!("parser panics :: {desc}")); continue; } };
         let mut bad = false;
